@@ -491,10 +491,16 @@ func (e *expression) Value(ctx *hcl.EvalContext) (cty.Value, hcl.Diagnostics) {
 			}
 			nameStr := name.AsString()
 			if _, defined := attrs[nameStr]; defined {
+				detail := fmt.Sprintf("An attribute named %q was already defined at %s.", nameStr, attrRanges[nameStr])
+				if len(nameMarks) > 0 {
+					// The name was derived from a marked value, so it must
+					// not appear in the message.
+					detail = fmt.Sprintf("An attribute with the same name was already defined at %s.", attrRanges[nameStr])
+				}
 				diags = append(diags, &hcl.Diagnostic{
 					Severity:    hcl.DiagError,
 					Summary:     "Duplicate object attribute",
-					Detail:      fmt.Sprintf("An attribute named %q was already defined at %s.", nameStr, attrRanges[nameStr]),
+					Detail:      detail,
 					Subject:     &jsonAttr.NameRange,
 					Expression:  e,
 					EvalContext: ctx,
